@@ -4,8 +4,9 @@ use crate::model::Verdict;
 use crate::obs::Ev;
 use std::collections::HashMap;
 
-pub fn history_rules(_prog: &Program, trace: &[Ev]) -> Vec<Verdict>
+pub fn history_rules(prog: &Program, trace: &[Ev]) -> Vec<Verdict>
 {
+    let storage_fault = serde_json::to_string(prog).map(|s| s.contains("TakeStorage")).unwrap_or(true);
     let mut out = Vec::new();
     let mut runs: HashMap<u8, u32> = HashMap::new();
     let mut dropped: HashMap<u32, usize> = HashMap::new();
@@ -17,6 +18,7 @@ pub fn history_rules(_prog: &Program, trace: &[Ev]) -> Vec<Verdict>
     {
         match ev
         {
+            Ev::Runner(k, e) if *k == crate::obs::RK_DISCARD && !storage_fault => push(&mut out, "C02", "h-postponed-discarded", &["C01", "C09", "C11"], pos, format!("a postponed command for system entity {e:#x} was discarded at the end of a tree")),
             Ev::Panic(m) => push(&mut out, "C18", "h-panic", &["C02", "C03", "C07", "C10", "C11", "C12"], pos, format!("panic: {m}")),
             Ev::Probe { uid, s } if !s.is_empty() => push(&mut out, "C04", "h-probe-saw-data", &[], pos, format!("probe {uid:#x} observed {s:?}")),
             Ev::Body { inst, n, cap, s, chg } =>
